@@ -61,4 +61,52 @@ RECIPES = {
                 "the ident has exactly one defect",
         "assumptions": COMMON_ASSUME,
     },
+    "C14": {
+        "level": "model_checking",
+        "mc": {"quick": [], "thorough": []},
+        "families": {"quick": [("notes", 1500, 4)], "thorough": [("notes", 12000, 12)]},
+        "reasons": ("value", "panic"),
+        "rule": "B: 0..5 notes, namesz/descsz 0..20, alignment {1,2,4,8,16,3,5,6,7,12,32,0,2^31,2^32-1,2^63,2^64-1}, both "
+                "classes and orders, typed GNU notes, trailing garbage / truncation / one corrupted byte; TLC compares the "
+                "iteration with the operational model and the operational model with the declarative record layout",
+        "assumptions": COMMON_ASSUME,
+    },
+    "C11": {
+        "level": "model_checking",
+        "mc": {"quick": [], "thorough": []},
+        "families": {"quick": [("gnuhash", 120, 4)], "thorough": [("gnuhash", 1000, 12)]},
+        "reasons": ("value", "panic"),
+        "rule": "B: harness-built .gnu.hash tables (1..60 symbols, nbucket 1..n, bloom 1..64 words, shift 0..31, symoffset 1..3, "
+                "both classes/orders, djb2-colliding and same-bucket absent names, duplicates, empty and non-UTF-8 names) and "
+                "corrupted variants; TLC itself checks the table is well formed before demanding completeness; soundness always",
+        "assumptions": COMMON_ASSUME,
+    },
+    "C12": {
+        "level": "model_checking",
+        "mc": {"quick": [], "thorough": []},
+        "families": {"quick": [("sysvhash", 120, 4)], "thorough": [("sysvhash", 1000, 12)]},
+        "reasons": ("value", "panic"),
+        "rule": "B: harness-built .hash tables and corrupted variants, as C11; hash function vs the gABI elf_hash text",
+        "assumptions": COMMON_ASSUME,
+    },
+    "C13": {
+        "level": "model_checking",
+        "mc": {"quick": [], "thorough": []},
+        "families": {"quick": [("symver", 100, 4)], "thorough": [("symver", 800, 12)]},
+        "reasons": ("value", "panic"),
+        "rule": "B: version models (0..12 verneed x 0..6 aux, 0..12 verdef x 1..3 names, versym mixing 0,1,defined,needed,unknown, "
+                "hidden), contiguous / records-then-auxes / gapped layouts, both classes/orders, via SymbolVersionTable::new; "
+                "every symbol index 0..len+1 and huge; result compared with the operational model and the ground-truth model",
+        "assumptions": COMMON_ASSUME,
+    },
+    "C16": {
+        "level": "model_checking",
+        "mc": {"quick": [], "thorough": []},
+        "families": {"quick": [("links", 1500, 3), ("notes", 500, 1)], "thorough": [("links", 12000, 10), ("notes", 4000, 2)]},
+        "reasons": ("value", "panic", "died"),
+        "rule": "B: adversarial version-record chains (next in {0,1,size-1,size,2^31,2^32-1,to-end}, counts up to u64::MAX, aux "
+                "offsets up to 2^32-1, starts up to usize::MAX); items <= bytes and <= count are part of the trace spec; a call "
+                "exceeding 5 s CPU is recorded as died",
+        "assumptions": COMMON_ASSUME,
+    },
 }
